@@ -190,6 +190,9 @@ class Inst:
                   cc.Convect: self.convect, cc.Bracket: self.bracket}
         if type(e) in table2:
             return table2[type(e)](self.inst(e.args[0]), self.inst(e.args[1]))
+        if type(e).__name__ == 'Transpose' and type(e).__module__.startswith('sympde.'):
+            v = self.inst(e.args[0])
+            return v.T if isinstance(v, (Matrix, ImmutableDenseMatrix)) else v
         if isinstance(e, sympy.Function) and len(e.args) == 1:
             return e.func(self.inst(e.args[0]))
         raise NotImplementedError('cannot instantiate %s' % type(e).__name__)
